@@ -1,1 +1,222 @@
-//! (placeholder; filled in by the check that owns it)
+//! E2 — controlled poll scheduler for real futures (C12, C13).
+//!
+//! A hand-rolled single-threaded executor that owns every scheduling decision: which woken
+//! task to poll, when each suspended "IO" completes (which wakes its task), and — up to a
+//! budget — spurious polls of tasks nobody woke (what `join_all` does). Exploration is a
+//! stateless depth-first search over choice sequences; every execution is a replay from a
+//! fresh system built by the caller's factory. "Unfinished tasks but nothing enabled" is a
+//! deadlock / lost wake-up. Replaying a prefix that does not fit is a hard (machinery) error.
+use std::future::Future;
+use std::pin::Pin;
+use std::sync::atomic::{AtomicBool, Ordering::SeqCst};
+use std::sync::{Arc, Mutex};
+use std::task::{Context, Poll, Wake, Waker};
+
+/// The explorer-owned table of pending IO completions.
+#[derive(Default)]
+pub struct IoTable {
+    pub slots: Vec<IoSlot>,
+}
+pub struct IoSlot {
+    pub waker: Option<Waker>,
+    pub done: bool,
+    pub label: String,
+}
+pub type Io = Arc<Mutex<IoTable>>;
+
+/// A future that suspends until the explorer completes IO slot `id`.
+pub struct IoFut {
+    io: Io,
+    id: usize,
+}
+impl Future for IoFut {
+    type Output = ();
+    fn poll(self: Pin<&mut Self>, cx: &mut Context<'_>) -> Poll<()> {
+        let mut t = self.io.lock().unwrap();
+        if t.slots[self.id].done {
+            Poll::Ready(())
+        } else {
+            t.slots[self.id].waker = Some(cx.waker().clone());
+            Poll::Pending
+        }
+    }
+}
+/// Create one suspension point (a pending IO the explorer decides when to complete).
+pub fn suspend(io: &Io, label: &str) -> IoFut {
+    let mut t = io.lock().unwrap();
+    t.slots.push(IoSlot { waker: None, done: false, label: label.to_string() });
+    IoFut { io: io.clone(), id: t.slots.len() - 1 }
+}
+
+struct Flag(AtomicBool);
+impl Wake for Flag {
+    fn wake(self: Arc<Self>) {
+        self.0.store(true, SeqCst)
+    }
+    fn wake_by_ref(self: &Arc<Self>) {
+        self.0.store(true, SeqCst)
+    }
+}
+
+pub type Task = Pin<Box<dyn Future<Output = ()>>>;
+
+/// A system under exploration: tasks + the IO table they suspend on + a fingerprint function
+/// (used only to count distinct states and to assert replay determinism — never for pruning).
+pub struct System {
+    pub tasks: Vec<Task>,
+    pub io: Io,
+    pub fingerprint: Box<dyn Fn() -> u64>,
+}
+
+#[derive(Clone, Copy, Debug, PartialEq, Eq)]
+pub enum Action {
+    Poll(usize),
+    Io(usize),
+    Spurious(usize),
+}
+
+#[derive(Default, Debug, Clone)]
+pub struct Execution {
+    pub choices: Vec<usize>,
+    pub nenabled: Vec<usize>,
+    pub actions: Vec<Action>,
+    pub fingerprints: Vec<u64>,
+    pub deadlock: bool,
+    /// number of non-default (non-zero) choices taken
+    pub deviations: usize,
+}
+
+/// Run one execution: replay `prefix`, then always take choice 0 (canonical order: woken
+/// tasks ascending, then pending IOs oldest first, then spurious polls ascending).
+/// `on_step` is called after every step (for step invariants). Returns the execution; the
+/// caller inspects its own shared observation state afterwards.
+pub fn run(sys: System, prefix: &[usize], spurious_budget: usize, max_steps: usize, mut on_step: impl FnMut(&Execution)) -> Execution {
+    let System { tasks, io, fingerprint } = sys;
+    let mut futs: Vec<Option<Task>> = tasks.into_iter().map(Some).collect();
+    let flags: Vec<Arc<Flag>> = (0..futs.len()).map(|_| Arc::new(Flag(AtomicBool::new(true)))).collect();
+    let wakers: Vec<Waker> = flags.iter().map(|f| Waker::from(f.clone())).collect();
+    let mut ex = Execution::default();
+    let mut spurious_used = 0;
+    loop {
+        if futs.iter().all(|f| f.is_none()) {
+            break;
+        }
+        let mut en: Vec<Action> = vec![];
+        for t in 0..futs.len() {
+            if futs[t].is_some() && flags[t].0.load(SeqCst) {
+                en.push(Action::Poll(t));
+            }
+        }
+        {
+            let tb = io.lock().unwrap();
+            for (i, s) in tb.slots.iter().enumerate() {
+                if !s.done {
+                    en.push(Action::Io(i));
+                }
+            }
+        }
+        if en.is_empty() {
+            ex.deadlock = true;
+            break;
+        }
+        if spurious_used < spurious_budget {
+            for t in 0..futs.len() {
+                if futs[t].is_some() && !flags[t].0.load(SeqCst) {
+                    en.push(Action::Spurious(t));
+                }
+            }
+        }
+        let step = ex.choices.len();
+        assert!(step < max_steps, "sched: execution exceeded the step horizon ({max_steps})");
+        let c = if step < prefix.len() {
+            assert!(prefix[step] < en.len(), "sched: replay divergence at step {step}: choice {} of {} enabled", prefix[step], en.len());
+            prefix[step]
+        } else {
+            0
+        };
+        if c != 0 {
+            ex.deviations += 1;
+        }
+        ex.choices.push(c);
+        ex.nenabled.push(en.len());
+        ex.actions.push(en[c]);
+        match en[c] {
+            Action::Poll(t) | Action::Spurious(t) => {
+                if let Action::Spurious(_) = en[c] {
+                    spurious_used += 1;
+                }
+                flags[t].0.store(false, SeqCst);
+                let mut cx = Context::from_waker(&wakers[t]);
+                if futs[t].as_mut().unwrap().as_mut().poll(&mut cx).is_ready() {
+                    futs[t] = None;
+                }
+            }
+            Action::Io(i) => {
+                let w = {
+                    let mut tb = io.lock().unwrap();
+                    tb.slots[i].done = true;
+                    tb.slots[i].waker.take()
+                };
+                if let Some(w) = w {
+                    w.wake();
+                }
+            }
+        }
+        ex.fingerprints.push(fingerprint());
+        on_step(&ex);
+    }
+    // drop unfinished futures before the caller looks at shared state
+    drop(futs);
+    ex
+}
+
+#[derive(Default, Debug, Clone)]
+pub struct ExploreStats {
+    pub schedules: u64,
+    pub steps: u64,
+    pub max_len: usize,
+    pub max_deviations: usize,
+    pub deadlocks: u64,
+    pub stopped_early: bool,
+}
+
+/// Stateless DFS over all schedules extending `prefix`. `bound` = maximum number of
+/// deviations (non-default choices) per execution, `None` = unbounded (complete).
+/// `exec(prefix) -> (Execution, keep_going)`: runs one execution on a fresh system and checks it.
+pub fn explore(prefix: Vec<usize>, bound: Option<usize>, stats: &mut ExploreStats, exec: &mut dyn FnMut(&[usize]) -> (Execution, bool)) {
+    // explicit stack instead of recursion: schedules trees can be deep
+    let mut stack: Vec<Vec<usize>> = vec![prefix];
+    while let Some(p) = stack.pop() {
+        let (x, go) = exec(&p);
+        stats.schedules += 1;
+        stats.steps += x.choices.len() as u64;
+        stats.max_len = stats.max_len.max(x.choices.len());
+        stats.max_deviations = stats.max_deviations.max(x.deviations);
+        if x.deadlock {
+            stats.deadlocks += 1;
+        }
+        if !go {
+            stats.stopped_early = true;
+            return;
+        }
+        let mut dev_before: usize = x.choices[..p.len().min(x.choices.len())].iter().filter(|&&c| c != 0).count();
+        // children in reverse so that the DFS order is lexicographic
+        let mut kids = vec![];
+        for i in p.len()..x.choices.len() {
+            // choices after the prefix are all 0 by construction
+            if bound.map(|b| dev_before + 1 <= b).unwrap_or(true) {
+                for alt in 1..x.nenabled[i] {
+                    let mut q = x.choices[..i].to_vec();
+                    q.push(alt);
+                    kids.push(q);
+                }
+            }
+            if x.choices[i] != 0 {
+                dev_before += 1;
+            }
+        }
+        while let Some(k) = kids.pop() {
+            stack.push(k);
+        }
+    }
+}
